@@ -25,6 +25,7 @@ ALPHABET = [
     b"/pre" + PH,                         # path having the library path as suffix
     PH + b" /usr/lib/b.so",               # own entry sharing its line with another library
     b"/usr/lib/a.so\r",                   # CR-LF ending
+    PH + b" # c\r",                       # own entry + comment on a CR-LF line
     b"# caf\xc3\xa9 \xff libsnoopy.so",     # comment with UTF-8 / Latin-1 bytes (0xFF is not end-of-file, >= 0x80 is not a control character)
 ]
 
